@@ -15,6 +15,7 @@ static void module_dtor(void *data);
 static int _pipe(m_mod_t *mod);
 static int init_pubsub_fd(m_mod_t *mod);
 static int manage_srcs(m_mod_t *mod, m_ctx_t *c, int flag, bool stop);
+static void reset_pubsub_fd(m_mod_t *mod);
 static void reset_module(m_mod_t *mod);
 static int optional_hook(m_mod_t *mod, enum mod_hook req_hook);
 
@@ -82,7 +83,7 @@ static int init_pubsub_fd(m_mod_t *mod) {
 static int manage_srcs(m_mod_t *mod, m_ctx_t *c, int flag, bool stop) {
     int ret = 0;
 
-    for (int i = 0; i < M_SRC_TYPE_END; i++) {
+    for (int i = 0; i < M_SRC_TYPE_END && (ret == 0 || flag == RM); i++) {
         m_itr_foreach(mod->srcs[i], {
             ev_src_t *t = m_itr_get(m_itr);
             if (flag == RM && stop) {
@@ -100,18 +101,27 @@ static int manage_srcs(m_mod_t *mod, m_ctx_t *c, int flag, bool stop) {
                 if (ret == 0 && t->type == M_SRC_TYPE_TASK && flag == ADD) {
                     ret = start_task(c, t);
                 }
+                if (ret != 0 && flag == ADD) {
+                    /* Give up at first source that cannot be polled; caller rolls back */
+                    memhook._free(m_itr);
+                    break;
+                }
             }
         });
     }
     return ret;
 }
 
-static void reset_module(m_mod_t *mod) {
+static void reset_pubsub_fd(m_mod_t *mod) {
     if (mod->pubsub_fd[1] != -1) {
         close(mod->pubsub_fd[1]);
         mod->pubsub_fd[0] = -1;
         mod->pubsub_fd[1] = -1;
     }
+}
+
+static void reset_module(m_mod_t *mod) {
+    reset_pubsub_fd(mod);
     m_map_clear(mod->subscriptions);
     m_stack_clear(mod->recvs);
     m_queue_clear(mod->stashed);
@@ -226,6 +236,18 @@ int start(m_mod_t *mod, bool starting) {
 
     M_MOD_CTX(mod);
     int ret = manage_srcs(mod, c, ADD, false);
+    if (ret != 0) {
+        /*
+         * A module is either polled for all of its sources, or for none:
+         * leave it exactly as it was before the failed attempt.
+         */
+        ret = errno ? -errno : -EINVAL;
+        manage_srcs(mod, c, RM, false);
+        if (starting) {
+            m_bst_clear(mod->srcs[M_SRC_TYPE_PS]);
+            reset_pubsub_fd(mod);
+        }
+    }
     M_LOG_ASSERT(!ret, errors[starting], ret);
     
     mod->state = M_MOD_RUNNING;
